@@ -207,7 +207,7 @@ def shard(ctx, arg):
         if k % 8 == 5:
             # index-valued constants (string / type / field / method / enum) beyond 0x7F and 0x7FFF: the index is an UNSIGNED little-endian
             # value of 1..4 bytes; a padding class sorting first pushes the string, field and method indices up
-            pad_n = 33000 if (not ctx.quick and k % 64 == 5) or (ctx.quick and idx == 0 and k == 5) else rng.choice([130, 200, 300])
+            pad_n = 33000 if (not ctx.quick and k % 512 == 5) or (ctx.quick and idx == 0 and k == 5) else rng.choice([130, 200, 300])
             pad = m.add_class("La/Pad;", W.ACC_PUBLIC | W.ACC_ABSTRACT)
             for i in range(pad_n):
                 pad.add_field("A%05d" % i, "I", W.ACC_STATIC | W.ACC_PUBLIC)
@@ -338,7 +338,7 @@ def run(ctx):
                 "EncodedField.get_init_value().get_value(), EncodedAnnotation elements, and the initialiser text of DvClass.get_source() (int(text,0) / boolean). "
                 "distinct non-trivial = distinct (place, value type, width, sign)")
     ctx.assumptions = ["float/double are not in the statement (androguard marks them TODO): not checked", "the printed initialiser is compared for integral, char and boolean fields only"]
-    n = 240 if ctx.quick else 200000
+    n = 240 if ctx.quick else 64000
     ctx.run_shards(MOD, "shard", [[i, n // 16 + 1] for i in range(16)], timeout=3000)
     ctx.require_counter("static_values_compared", 500)
     ctx.require_counter("annotations_compared", 20)
